@@ -577,6 +577,32 @@ def workload(ctx, repo):
                                  "start": start, "dur": dkw}}
                 ctx.case = case
                 run_case(ctx, repo, case)
+    # intervals about a year long in exact units, from anchors at the ends
+    # of leap and common years, in every representation: single steps that
+    # land exactly on day 366 / 1 January
+    kk = 0
+    for (y, doy) in ((2019, 365), (2020, 100), (2019, 1), (2020, 1),
+                     (2020, 366), (2021, 1), (2019, 364), (2023, 365)):
+        for dkw in ({"days": 366}, {"days": 365}, {"days": 632},
+                    {"days": 730}, {"days": 731}, {"weeks": 52},
+                    {"weeks": 53}, {"hours": 8784}, {"days": 1096}):
+            for rep in gen.REPS:
+                for fmt in (3, 4):
+                    kk += 1
+                    if not ctx.mine(kk):
+                        continue
+                    a = gen.date_kwargs("gregorian", rep, R.days_before_year(
+                        "gregorian", y) + doy - 1)
+                    a.update({"hour_of_day": 0, "minute_of_hour": 0,
+                              "second_of_minute": 0})
+                    a.update(gen.zone_kwargs((0, 0)))
+                    desc = {"mode": "gregorian", "fmt": fmt, "reps": 4,
+                            "dur": dkw}
+                    desc["start" if fmt == 3 else "end"] = a
+                    case = {"op": "queries", "desc": desc, "probe_seed": kk}
+                    ctx.case = case
+                    ctx.ev("cases.year-long-exact")
+                    run_case(ctx, repo, case)
     n = 300 if ctx.tier == "quick" else 1200
     for k in range(n):
         mode = R.MODES[k % 4] if k % 2 else "gregorian"
